@@ -1035,7 +1035,12 @@ fn pan(x: &mut Exec) -> Res {
     let _ = handles;
     {
         let hs_ref = &hs;
-        x.wait_cond(&|| hs_ref.iter().all(|(_, _, h)| h.is_done()))?;
+        let r = x.wait_cond(&|| hs_ref.iter().all(|(_, _, h)| h.is_done()));
+        if let Err(Fail::Stranded(msg)) = r {
+            let stuck: Vec<String> = hs.iter().filter(|(_, _, h)| !h.is_done()).map(|(i, k, _)| format!("#{} kind {}", i, k)).collect();
+            return Err(Fail::Stranded(format!("coroutines of the storm that never finished: {:?} (kind 6 = select! whose arm panics: the poller was not woken / the panic not re-raised); {}", stuck, msg)));
+        }
+        r?;
     }
     for (i, kind, h) in hs {
         let res = h.join();
